@@ -1,27 +1,330 @@
-//! C02 — not built yet (stub so that the binary links; `./check C02` reports INFRA until replaced).
+//! C02 — type soundness: accepted programs never hit dynamic type errors.
+//! Well-typed programs are perturbed into almost-well-typed ones; whatever the checker still accepts is run
+//! under the strict (tag-checking) reference interpreter and under mini-Lua.
+use crate::common::*;
 use arbitrary::Unstructured;
-use vcore::{Check, Labels, Plan, Tier, Verdict};
+use serde::{Deserialize, Serialize};
+use syltmodel::ast::*;
+use syltmodel::gen::{Gen, GenCfg};
+use syltmodel::interp::Stop;
+use syltmodel::plant;
+use syltmodel::print::Plan as SurfacePlan;
+use vcore::luarun::{run_lua, LuaOutcome, Terminal};
+use vcore::{compile, Check, Labels, Outcome, Plan, Project, Stats, Step, Tape, Tier, Verdict};
 
-pub struct Stub;
-pub const CHECK: Stub = Stub;
-pub fn plan(_t: Tier) -> Plan {
-    Plan::new(1, 16)
+pub struct C02;
+pub const CHECK: C02 = C02;
+pub fn plan(t: Tier) -> Plan {
+    Plan::new(t.pick(8_000, 200_000), t.pick(3200, 4600))
 }
-impl Check for Stub {
-    type Case = u8;
+
+#[derive(Clone, Serialize, Deserialize)]
+pub struct Case {
+    /// the perturbed program (the perturbed expression is wrapped in `Mark`)
+    pub prog: Program,
+    pub kinds: Vec<String>,
+    #[serde(default)]
+    pub source: String,
+}
+
+fn other_scalar(t: &mut Tape, ty: &Ty) -> Expr {
+    let mut opts: Vec<Expr> = Vec::new();
+    if *ty != Ty::Int {
+        opts.push(int(7));
+    }
+    if *ty != Ty::Float {
+        opts.push(float("2.5"));
+    }
+    if *ty != Ty::Str {
+        opts.push(string("zq"));
+    }
+    if *ty != Ty::Bool {
+        opts.push(boolean(true));
+    }
+    opts.push(e(Ty::Tuple(vec![Ty::Int, Ty::Str]), EKind::Tuple(vec![int(1), string("t")])));
+    opts.push(e(Ty::List(Box::new(Ty::Int)), EKind::List(vec![int(1), int(2)])));
+    t.pick(&opts).clone()
+}
+
+/// apply one perturbation; returns the perturbed program and the kind name
+fn perturb(t: &mut Tape, p: &Program) -> Option<(Program, String)> {
+    let (_, exprs) = plant::sites(p);
+    if exprs.is_empty() {
+        return None;
+    }
+    for _ in 0..6 {
+        let si = t.below(exprs.len());
+        let site = &exprs[si];
+        let old = plant::expr_at(p, si)?;
+        if matches!(old.kind, EKind::Mark(_)) {
+            continue;
+        }
+        let claimed = old.ty.clone();
+        let mark = |x: Expr| -> Expr { e(claimed.clone(), EKind::Mark(Box::new(Expr { ty: claimed.clone(), kind: x.kind }))) };
+        let choice = t.weighted(&[30, 25, 12, 8, 8, 6, 6, 5]);
+        let (newx, kind): (Expr, &str) = match choice {
+            0 => (mark(other_scalar(t, &claimed)), "literal-of-other-type"),
+            1 => {
+                // a variable in scope of another type
+                let vars: Vec<VarId> = site
+                    .ctx
+                    .scope
+                    .iter()
+                    .copied()
+                    .filter(|v| p.var(*v).ty != claimed && p.var(*v).kind != VarKind::SelfVar && (!site.ctx.in_pure || !p.var(*v).mutable))
+                    .collect();
+                if vars.is_empty() {
+                    continue;
+                }
+                let v = *t.pick(&vars);
+                (mark(e(claimed.clone(), EKind::Var(v))), "variable-of-other-type")
+            }
+            2 => match &old.kind {
+                // call with an argument dropped / duplicated / two swapped
+                EKind::Call(f, args) if !args.is_empty() => {
+                    let mut a = args.clone();
+                    let k = match t.below(3) {
+                        0 => {
+                            a.pop();
+                            "argument-dropped"
+                        }
+                        1 => {
+                            let x = a[0].clone();
+                            a.push(x);
+                            "argument-duplicated"
+                        }
+                        _ => {
+                            if a.len() < 2 || a[0].ty == a[1].ty {
+                                continue;
+                            }
+                            a.swap(0, 1);
+                            "arguments-swapped"
+                        }
+                    };
+                    (mark(e(claimed.clone(), EKind::Call(f.clone(), a))), k)
+                }
+                _ => continue,
+            },
+            3 => match &old.kind {
+                EKind::Field(o, _) => (mark(e(claimed.clone(), EKind::Field(o.clone(), "zznope".to_string()))), "unknown-field"),
+                EKind::BlobNew { blob, self_var, fields } if !fields.is_empty() => {
+                    let mut f = fields.clone();
+                    if t.bool() {
+                        f.pop();
+                        (mark(e(claimed.clone(), EKind::BlobNew { blob: *blob, self_var: *self_var, fields: f })), "missing-field")
+                    } else {
+                        f.push(("zzextra".to_string(), int(1)));
+                        (mark(e(claimed.clone(), EKind::BlobNew { blob: *blob, self_var: *self_var, fields: f })), "extra-field")
+                    }
+                }
+                _ => continue,
+            },
+            4 => match &old.kind {
+                EKind::Variant(en, _, payload) => {
+                    (mark(e(claimed.clone(), EKind::Variant(*en, "Zznope".to_string(), payload.clone()))), "unknown-variant")
+                }
+                EKind::Case { scrut, arms, default } if default.is_none() && arms.len() > 1 => {
+                    let mut a = arms.clone();
+                    a.pop();
+                    (mark(e(claimed.clone(), EKind::Case { scrut: scrut.clone(), arms: a, default: None })), "arm-removed-from-total-case")
+                }
+                _ => continue,
+            },
+            5 => match &old.kind {
+                // branches of different types
+                EKind::If(bs, Some(d)) if d.value.is_some() => {
+                    let mut d2 = d.clone();
+                    d2.value = Some(Box::new(other_scalar(t, &claimed)));
+                    (mark(e(claimed.clone(), EKind::If(bs.clone(), Some(d2)))), "branches-of-different-types")
+                }
+                _ => continue,
+            },
+            6 => match &old.kind {
+                EKind::List(xs) if !xs.is_empty() => {
+                    let mut y = xs.clone();
+                    let inner = xs[0].ty.clone();
+                    y.push(other_scalar(t, &inner));
+                    (mark(e(claimed.clone(), EKind::List(y))), "heterogeneous-list")
+                }
+                EKind::Std(StdFn::ListPush, args) => {
+                    let inner = args[1].ty.clone();
+                    let a = vec![args[0].clone(), other_scalar(t, &inner)];
+                    (mark(e(claimed.clone(), EKind::Std(StdFn::ListPush, a))), "push-of-other-type")
+                }
+                _ => continue,
+            },
+            _ => match &old.kind {
+                // tuple index out of range / tuple of another length
+                EKind::TupleIdx(o, i) => (mark(e(claimed.clone(), EKind::TupleIdx(o.clone(), i + 3))), "tuple-index-out-of-range"),
+                EKind::Tuple(xs) if !xs.is_empty() => {
+                    let mut y = xs.clone();
+                    y.push(int(9));
+                    (mark(e(claimed.clone(), EKind::Tuple(y))), "tuple-of-other-length")
+                }
+                _ => continue,
+            },
+        };
+        return Some((plant::replace_expr(p, si, newx), kind.to_string()));
+    }
+    None
+}
+
+impl Check for C02 {
+    type Case = Case;
     fn id(&self) -> &'static str {
         "C02"
     }
-    fn generate(&self, _u: &mut Unstructured, _tier: Tier) -> Option<u8> {
-        None
+    fn generate(&self, u: &mut Unstructured, tier: Tier) -> Option<Case> {
+        let mut t = Tape::new(u);
+        let mut cfg = GenCfg::core(tier == Tier::Thorough);
+        cfg.decl_budget = 45;
+        let base = Gen::new(&mut t, cfg).program();
+        let n = if t.chance(1, 4) { 2 } else { 1 };
+        let mut prog = base;
+        let mut kinds = Vec::new();
+        for _ in 0..n {
+            if let Some((q, k)) = perturb(&mut t, &prog) {
+                prog = q;
+                kinds.push(k);
+            }
+        }
+        if kinds.is_empty() {
+            return None;
+        }
+        let source = render(&prog, &SurfacePlan::default()).text;
+        Some(Case { prog, kinds, source })
     }
-    fn evaluate(&self, _case: &u8, _labels: &mut Labels) -> Verdict {
-        Verdict::Discard("stub".into())
+
+    fn evaluate(&self, case: &Case, labels: &mut Labels) -> Verdict {
+        for k in &case.kinds {
+            labels.add(format!("kind:{}", k));
+        }
+        let printed = render(&case.prog, &SurfacePlan::default());
+        let out = compile(&Project::single(printed.text.clone()));
+        let lua = match &out {
+            Outcome::Accepted(b) => b.clone(),
+            Outcome::Rejected { errors, bytes_written } => {
+                if *bytes_written > 0 {
+                    return Verdict::Violation { signature: "C02/wrote-lua-on-error".into(), detail: out.short() };
+                }
+                labels.add(format!("rejected:{}", errors[0].kind));
+                return Verdict::Pass { nontrivial: false };
+            }
+            Outcome::Panicked { .. } => return Verdict::Discard("compiler-panicked".into()),
+        };
+        labels.add("accepted");
+        for k in &case.kinds {
+            labels.add(format!("accepted-kind:{}", k));
+        }
+        let r = reference(&case.prog, false);
+        if r.ambiguous {
+            return Verdict::Discard("order-ambiguous".into());
+        }
+        let executed = r.mark_hits > 0;
+        if executed {
+            labels.add("perturbed-site-executed");
+        }
+        // 1. the strict reference run must not see an operation on a value of the wrong type
+        if let Some(Stop::Dyn(kind, what)) = &r.stop {
+            if kind == "raw" {
+                return Verdict::Discard("raw".into());
+            }
+            return Verdict::Violation {
+                signature: format!("C02/strict-dynerror/{}/{}", kind, case.kinds.join("+")),
+                detail: format!(
+                    "the compiler accepts this program, but executing it applies an operation to a value of the wrong type: {} ({})\nperturbation: {:?}\n--- source ---\n{}",
+                    kind, what, case.kinds, printed.text
+                ),
+            };
+        }
+        if let Some(Stop::Budget(w)) = &r.stop {
+            return Verdict::Discard(format!("ref-budget-{}", w));
+        }
+        if r.nan_seen || r.unprintable_seen {
+            return Verdict::Discard("nan-or-unprintable".into());
+        }
+        // 2. the Lua run must not end in a Lua error other than assert / <!>, and must agree with the reference
+        let expected = match expected_trace(&r, &printed) {
+            Ok(t) => t,
+            Err(e) => return Verdict::Discard(e.chars().take(30).collect()),
+        };
+        match run_lua(&lua, r.steps * 60 + 400_000) {
+            LuaOutcome::LoadError { class, msg, .. } => Verdict::Violation {
+                signature: format!("C02/lua-load/{}", class),
+                detail: format!("emitted chunk does not load: {}\n--- source ---\n{}", msg, printed.text),
+            },
+            LuaOutcome::Ran(t) => {
+                match &t.terminal {
+                    Terminal::OutOfBudget(_) => return Verdict::Discard("lua-budget".into()),
+                    Terminal::LuaError { class, msg } => {
+                        return Verdict::Violation {
+                            signature: format!("C02/lua-error/{}/{}", class, case.kinds.join("+")),
+                            detail: format!(
+                                "the compiler accepts this program, but running it ends in a Lua error that is neither a failed `<=>` nor a reached `<!>`: {}\nperturbation: {:?}\n--- source ---\n{}",
+                                msg, case.kinds, printed.text
+                            ),
+                        };
+                    }
+                    _ => {}
+                }
+                if let Some((kind, what)) = diff_traces(&expected, &t) {
+                    return Verdict::Violation {
+                        signature: format!("C02/trace/{}/{}", kind, case.kinds.join("+")),
+                        detail: format!("accepted program: Lua and the reference interpreter disagree: {}\nperturbation: {:?}\n--- source ---\n{}", what, case.kinds, printed.text),
+                    };
+                }
+                Verdict::Pass { nontrivial: executed }
+            }
+        }
+    }
+
+    fn simplify_at(&self, case: &Case, idx: usize) -> Step<Case> {
+        let pc = ProgCase { prog: case.prog.clone(), plan: SurfacePlan::default(), source: String::new() };
+        match shrink_step(&pc, idx) {
+            Step::End => Step::End,
+            Step::Skip => Step::Skip,
+            Step::Candidate(p) => {
+                // keep the perturbation: the marked expression must survive
+                let mut has_mark = false;
+                syltmodel::walk::walk_program(&p.prog, &mut |e| {
+                    if matches!(e.kind, EKind::Mark(_)) {
+                        has_mark = true;
+                    }
+                });
+                if !has_mark {
+                    return Step::Skip;
+                }
+                let source = render(&p.prog, &SurfacePlan::default()).text;
+                Step::Candidate(Case { prog: p.prog, kinds: case.kinds.clone(), source })
+            }
+        }
+    }
+    fn sample(&self, case: &Case) -> serde_json::Value {
+        vcore::truncate_value(serde_json::json!({"perturbations": case.kinds, "source": case.source}), 2000)
     }
     fn rule(&self) -> String {
-        "stub".into()
+        "cases: a random well-typed program with 1-2 type perturbations at generated expression sites: the expression is replaced by a \
+         literal of another type or by an in-scope variable of another type, a call loses / duplicates / swaps arguments, a field access \
+         names an unknown field, a blob literal loses or gains a field, a variant is renamed to an unknown one, an arm is removed from a \
+         total case, one branch of an if-expression gets another type, a list literal / push gets an element of another type, a tuple \
+         index goes out of range, a tuple gets another length (no `external`, no `unsafe_force`). Rejection by the compiler is fine and \
+         counted. Oracle for ACCEPTED perturbed programs: the strict, tag-checking reference run ends without a dynamic type error \
+         (arithmetic/comparison on wrong tags, call of a non-function, wrong arity, missing field, unknown variant in a total case, \
+         non-bool condition, read of an unbound variable, void stored), the mini-Lua run ends Ok / failed `<=>` / reached `<!>` only, and \
+         both traces agree. non-trivial = accepted by the compiler and the perturbed expression was evaluated in the reference run; \
+         distinct by case hash"
+            .into()
     }
-    fn health(&self, _s: &vcore::Stats) -> Result<(), String> {
-        Err("check not built yet".into())
+    fn health(&self, s: &Stats) -> Result<(), String> {
+        if s.evaluations < 500 {
+            return Ok(());
+        }
+        if s.label("accepted") * 50 < s.evaluations {
+            return Err(format!("only {} of {} perturbed programs are accepted: the perturbations are too crude", s.label("accepted"), s.evaluations));
+        }
+        if s.label("perturbed-site-executed") * 100 < s.evaluations {
+            return Err(format!("perturbed sites are rarely executed: {} of {}", s.label("perturbed-site-executed"), s.evaluations));
+        }
+        Ok(())
     }
 }
